@@ -85,14 +85,22 @@ Section NReader.
 
   Definition set_byte (l : list Z) (i : Z) (v : Z) : list Z := take i l ++ [v] ++ drop (i + 1) l.
 
+  (* cfg[8:14] = key; cfg[3] = max(3, min(protect_from, 255)); cfg[4] = cfg[4] | 0x80 or cfg[4] & 0x7F *)
+  Definition ntag_cfg_edit (cfg key : list Z) (read_protect : bool) (protect_from : Z) : list Z :=
+    let cfg1 := take 8 cfg ++ key ++ drop 14 cfg in
+    let cfg2 := set_byte cfg1 3 (Z.max 3 (Z.min protect_from 255)) in
+    let c4 := nth 4 cfg2 0 in
+    set_byte cfg2 4 (if read_protect then Z.lor c4 128 else Z.land c4 127).
+  (* ndef_cc[3] |= 0x88 / 0x08 *)
+  Definition ntag_cc_test (cc : list Z) : bool := (nth 0 cc 0 =? 225) && (Z.land (nth 1 cc 0) 240 =? 16).
+  Definition ntag_cc_edit (cc : list Z) (read_protect : bool) : list Z :=
+    set_byte cc 3 (Z.lor (nth 3 cc 0) (if read_protect then 136 else 8)).
+
   (* NTAG21x._protect_with_password (password is not None) *)
   Definition ntag_protect (pw : list Z) (read_protect : bool) (protect_from : Z) : NM bool :=
     mdo key <- nlift (ntag_key pw) ;
     mdo cfg <- nread cfgpage ;
-    let cfg1 := take 8 cfg ++ key ++ drop 14 cfg in
-    let cfg2 := set_byte cfg1 3 (Z.max 3 (Z.min protect_from 255)) in
-    let c4 := nth 4 cfg2 0 in
-    let cfg3 := set_byte cfg2 4 (if read_protect then Z.lor c4 128 else Z.land c4 127) in
+    let cfg3 := ntag_cfg_edit cfg key read_protect protect_from in
     mdo _ <- nwrite cfgpage (slice cfg3 0 4) ;
     mdo _ <- nwrite (cfgpage + 1) (slice cfg3 4 8) ;
     mdo _ <- nwrite (cfgpage + 2) (slice cfg3 8 12) ;
@@ -100,8 +108,8 @@ Section NReader.
     mdo _ <- (if protect_from <=? 3 then
                mdo p3 <- nread 3 ;
                let cc := slice p3 0 4 in
-               if (nth 0 cc 0 =? 225) && (Z.land (nth 1 cc 0) 240 =? 16)
-               then (mdo _ <- nwrite 3 (set_byte cc 3 (Z.lor (nth 3 cc 0) (if read_protect then 136 else 8))) ; nret tt)
+               if ntag_cc_test cc
+               then (mdo _ <- nwrite 3 (ntag_cc_edit cc read_protect) ; nret tt)
                else nret tt
              else nret tt) ;
     mdo present <- do_sense ;
